@@ -103,7 +103,7 @@ Rect(r, c) == [gc |-> c, rows |-> RectRows(r, c)]
 \* fresh tables; tables carrying merges / nested tables built through the API; the same
 \* saved and reopened ("..o"); ragged tables synthesised as XML and opened
 FreshStarts == {"1x1", "1x3", "3x1", "2x2", "3x3"}
-MergedStarts == {"h3", "v3", "r3", "n2"}
+MergedStarts == {"h3", "v3", "r3", "n2", "nn3", "vv4"}
 OpenedStarts == {"h3o", "v3o", "r3o", "rag", "rag2"}
 AllStarts == FreshStarts \cup MergedStarts \cup OpenedStarts
 
@@ -278,13 +278,17 @@ H3 == ApplyOp(Rect(3, 3), [op |-> "MergeCellsHorizontal", r |-> 1, a |-> 0, b |-
 V3 == ApplyOp(Rect(3, 3), [op |-> "MergeCellsVertical", a |-> 0, b |-> 1, c |-> 0])
 R3 == ApplyOp(Rect(3, 3), [op |-> "MergeCellsRange", sr |-> 0, er |-> 1, sc |-> 0, ec |-> 1])
 N2 == ApplyOp(Rect(2, 2), [op |-> "AddNestedTable", r |-> 0, c |-> 0])
+\* two vertical merges stacked directly on top of each other in one column
+VV4 == ApplyOp(ApplyOp(Rect(4, 2), [op |-> "MergeCellsVertical", a |-> 0, b |-> 1, c |-> 0]),
+               [op |-> "MergeCellsVertical", a |-> 2, b |-> 3, c |-> 0])
 StartTbl(k) ==
   CASE k = "1x1" -> Rect(1, 1) [] k = "1x3" -> Rect(1, 3) [] k = "3x1" -> Rect(3, 1)
     [] k = "2x2" -> Rect(2, 2) [] k = "3x3" -> Rect(3, 3)
     [] k \in {"h3", "h3o"} -> H3
     [] k \in {"v3", "v3o"} -> V3
     [] k \in {"r3", "r3o"} -> R3
-    [] k = "n2" -> N2
+    [] k \in {"n2", "nn3"} -> N2     \* nn3: the nested table itself holds a nested table (same abstract state)
+    [] k = "vv4" -> VV4
     [] k = "rag"  -> [gc |-> 3, rows |-> <<<<Plain(1), Plain(2), Plain(3)>>, <<Plain(4), Plain(5)>>, <<Plain(6), Plain(7), Plain(8)>> >>]
     [] k = "rag2" -> [gc |-> 3, rows |-> <<<<Plain(1), Plain(2)>>, <<Plain(3), Plain(4), Plain(5)>>, <<Plain(6), Plain(7), Plain(8)>> >>]
 StartToks(k) == MaxOf(TokSetOf(StartTbl(k)))
@@ -373,11 +377,26 @@ Viol_Plain(b, a, op) ==
   IF ~IsPlain(b) \/ op.op = "Start" THEN {}
   ELSE IF a # ApplyOp(b, op) THEN {"wrong-place"} ELSE {}
 
+\* frame of the calls that address ONE cell (content edits, UnmergeCells): a cell outside the merge
+\* group of the addressed cell keeps its place in the row (logical start), its span and its
+\* vertical-merge role - no reading of "unmerge this cell" dissolves or re-shapes another merge
+Viol_Frame(b, a, op) ==
+  IF op.op \notin CellOps \cup {"UnmergeCells"} THEN {}
+  ELSE IF ~InC(b, op.r, op.c) \/ ~WellFormed(b) THEN {}   \* merge groups are only unambiguous in a well-formed table
+  ELSE LET G == IF op.op = "UnmergeCells" THEN VGroup(b.rows, op.r + 1, op.c + 1) \cup {<<op.r + 1, op.c + 1>>}
+                ELSE {<<op.r + 1, op.c + 1>>}
+           Kept(p) == /\ p[1] <= NR(a)
+                      /\ \E j \in 1..Len(a.rows[p[1]]) :
+                            /\ LStart(a.rows[p[1]], j) = LStart(b.rows[p[1]], p[2])
+                            /\ a.rows[p[1]][j].span = b.rows[p[1]][p[2]].span
+                            /\ a.rows[p[1]][j].vm = b.rows[p[1]][p[2]].vm
+       IN IF \E p \in Pos(b) \ G : ~Kept(p) THEN {"untargeted-merge-changed"} ELSE {}
+
 Viol_Step(b, op, ret, a) ==
   IF op.op = "Start" THEN {}
   ELSE IF ret = "panic" THEN {"panic"}
   ELSE IF ret = "err" THEN (IF a # b THEN {"changed-on-error"} ELSE {})
-  ELSE LET rel == NewWFV(b, a) \cup Viol_Preserved(b, a, op)
+  ELSE LET rel == NewWFV(b, a) \cup Viol_Preserved(b, a, op) \cup Viol_Frame(b, a, op)
        IN IF rel # {} THEN rel ELSE Viol_Plain(b, a, op)
 
 \* ---- read-only operations -------------------------------------------------------
